@@ -33,7 +33,7 @@ META = {
              "inside tokenize-related code at overlapping times (a thread blocked on tokenize_lock)"),
     "abstract_measure": "distinct numbers of context switches per run (bucketed)",
     "gates": {"quick": {"lock_contended": 1500, "trace_preempt": 20000, "exploding_tokenize": 500,
-                        "fresh_interpreter": 8},
+                        "fresh_interpreter": 8, "nested_call_recursive_payload": 40},
               "thorough": {"lock_contended": 1500}},
     "anchors": ["dask/tokenize.py", "dask/hashing.py"],
     "real": ["dask.tokenize.tokenize / _tokenize / normalize_* / _SEEN / _ENSURE_DETERMINISTIC",
@@ -105,8 +105,25 @@ def run_one(tape, cfg):
     out.decoded = wl
     out.wdigest = dg(wl)
     out.policy = policy
+    del tokvals.NestedTokenizer.instances[:]
     values = [tokvals.build(s) for s in specs]
     baseline = [tokenize(v) for v in values]
+    # (a') a tokenize() call made from inside a __dask_tokenize__ is a tokenize() call like any other:
+    # it returns the token a top-level call returns for an equal value, whatever the enclosing call
+    # has on its stack
+    for inst in list(tokvals.NestedTokenizer.instances):
+        if inst.inner is None:
+            continue
+        out.probe("nested_call_compared")
+        if inst.spec[0] in ("reclist", "recdict"):
+            out.probe("nested_call_recursive_payload")
+        top = tokenize(tokvals.build(inst.spec))
+        if inst.inner != top:
+            out.violate("token_depends_on_enclosing_call",
+                        f"tokenize() of {inst.spec} called from a __dask_tokenize__ returned {inst.inner}, "
+                        f"a top-level call returns {top}", kind=inst.spec[0])
+            return out
+    del tokvals.NestedTokenizer.instances[:]
     # (b) history independence: the same values again, after other tokenizations
     for v, b in zip(values, baseline):
         if tokenize(v) != b:
